@@ -9,7 +9,7 @@ for i in range(1, 20):
     p = "C%02d" % i
     ev = json.load(open(os.path.join(ROOT, "evidence", p + ".json")))
     cov = ev["coverage"]
-    names = [n.split(".")[-1] for n in obl.get(p, [])]
+    names = sorted(n.split(".")[-1] for n in obl.get(p, []))
     shown = ", ".join(names[:9]) + (" …" if len(names) > 9 else "")
     kinds = sorted(cov.get("op_kinds", {}).items(), key=lambda kv: -kv[1])
     ks = ", ".join("%s %d" % kv for kv in kinds[:6]) + (" …" if len(kinds) > 6 else "")
